@@ -1124,6 +1124,11 @@ impl Sessions {
         self.next_exch_id = id;
     }
 
+    /// Position of the allocator of the internal (28-bit) session IDs
+    pub fn verif_set_next_unique_id(&mut self, id: u32) {
+        self.next_sess_unique_id = id & 0x0fff_ffff;
+    }
+
     pub fn verif_next_ids(&self) -> (u16, u16) {
         (self.next_sess_id, self.next_exch_id)
     }
